@@ -42,6 +42,14 @@ func (i *Interp) findIntrinsic(fn *ssa.Function) intrinsic {
 			return intrNoop
 		}
 	}
+	if strings.HasPrefix(name, "(*reflect.rtype).") || strings.HasPrefix(name, "(reflect.Value).") || (strings.HasPrefix(name, "reflect.") && fn.Parent() == nil && !strings.HasPrefix(name, "reflect.init")) {
+		if b := []byte(fn.Name()); len(b) > 0 && b[0] >= 'A' && b[0] <= 'Z' {
+			return func(i *Interp, fr *frame, fn *ssa.Function, args []value) value {
+				i.abort(stInconclusive, "reflect API not modelled: "+name)
+				return nil
+			}
+		}
+	}
 	if f := i.sqlIntrinsic(fn, name); f != nil {
 		return f
 	}
